@@ -2593,4 +2593,20 @@ func (s *ScopedKeyManager) InvalidateAccountCache(account uint32) {
 	s.mtx.Lock()
 	defer s.mtx.Unlock()
 	delete(s.acctInfo, account)
+
+	// Addresses of the account that wait for their private key to be
+	// derived at the next unlock were built from the cached account
+	// information. If the account does not exist afterwards (a dry run that
+	// is rolled back), they would make every later Unlock fail with an
+	// account-not-found error.
+	kept := s.deriveOnUnlock[:0]
+	for _, info := range s.deriveOnUnlock {
+		if info.managedAddr.InternalAccount() != account {
+			kept = append(kept, info)
+		}
+	}
+	for i := len(kept); i < len(s.deriveOnUnlock); i++ {
+		s.deriveOnUnlock[i] = nil
+	}
+	s.deriveOnUnlock = kept
 }
